@@ -92,6 +92,22 @@ var c09IPv4Fields = []struct {
 	{"source_ip", 96, 32}, {"destination_ip", 128, 32}, {"payload", 160, -1},
 }
 
+// c09BigSizes straddle the chunk sizes of the byte-copy paths (512 B string/number reads, 4 KiB, 32 KiB copy
+// buffer, 64 KiB compaction thresholds): an unaligned member followed by a member of such a size is what a
+// wrong fast path in the bit->byte adapters needs (seed C09-C).
+var c09BigSizes = []int{511, 512, 513, 1023, 1024, 1025, 4095, 4096, 4097, 32767, 32768, 32769, 40000, 65535, 65536, 65537, 70001}
+
+func (g *c09Gen) randBytesBig(maxSize int) []byte {
+	r := g.r
+	if r.Intn(16) == 0 {
+		n := gen.Pick(r, c09BigSizes)
+		if n <= maxSize {
+			return r.Bytes(n)
+		}
+	}
+	return g.randBytes()
+}
+
 func (g *c09Gen) randBytes() []byte {
 	r := g.r
 	switch r.Intn(10) {
@@ -153,13 +169,13 @@ func (g *c09Gen) leafStr() *c09Node {
 }
 
 func (g *c09Gen) leafHex() *c09Node {
-	b := g.randBytes()
+	b := g.randBytesBig(4097)
 	return g.leafNode("hex", c09Quote(hex.EncodeToString(b))+" | from_hex",
 		&c09Val{k: c09KBin, src: c09BitsFromBytes(b), n: int64(len(b)) * 8, unit: 8})
 }
 
 func (g *c09Gen) leafOpen() *c09Node {
-	b := g.randBytes()
+	b := g.randBytesBig(1 << 20)
 	name := g.newFile(b)
 	kind := "open"
 	if len(b) == 0 {
